@@ -1,5 +1,6 @@
 import I18nVerif.Model.World
 import I18nVerif.Model.Ranges
+import I18nVerif.Model.Key
 /-
 Foreign keys: `ParsedValue::populate`, `Ranges::populate*`, `Plurals::populate*`,
 `Plurals::find_variable`, `resolve_foreign_key{,_inner}`, `resolve_foreign_keys`
@@ -318,40 +319,49 @@ def hasFK : Nat → PV → Bool
     | .plurals _ _ o fs => hasFK fuel o || fs.any (fun (_, v) => hasFK fuel v)
     | _ => false
 
-/-- `get_value_at` for a registered path, falling back to the plural base key the last key was
-    merged into (the path was registered before `merge_plurals`) -/
-def lookupRegistered (w : World) (locale : Str) (p : KeyPath) : Res (Option (KeyPath × PV)) :=
+/-- `get_merged_plural_at`: the path with its last key replaced by the plural base key it may have been merged
+    into (the paths are registered before `merge_plurals`) -/
+def mergedPath (p : KeyPath) : Option KeyPath :=
+  match p.path.getLast? with
+  | none => none
+  | some last =>
+    match rsplitOnceC '_' last with
+    | none => none
+    | some (base, _) =>
+      let base := (stripSuffix "_ordinal".toList base).getD base
+      match Key.new base with
+      | none => none
+      | some b => some { p with path := p.path.dropLast ++ [b] }
+
+/-- resolve the value stored at `p` (if any) and store the result -/
+def resolveAt (orc : Oracle) (dflt : Str) (fuel : Nat) (locale : Str) (p : KeyPath) (w : World) : Res (World × Bool) :=
   match w.getValueAt locale p with
   | .err e => .err e
   | .panic s => .panic s
-  | .ok (some v) => .ok (some (p, v))
-  | .ok none =>
-    match p.path.getLast? with
-    | none => .ok none
-    | some last =>
-      match rsplitOnceC '_' last with
-      | none => .ok none
-      | some (base, _) =>
-        let base := (stripSuffix "_ordinal".toList base).getD base
-        let p' : KeyPath := { p with path := p.path.dropLast ++ [base] }
-        match w.getValueAt locale p' with
-        | .ok (some v) => .ok (some (p', v))
-        | .ok none => .ok none
-        | .err e => .err e
-        | .panic s => .panic s
+  | .ok none => .ok (w, false)
+  | .ok (some v) =>
+    match resolvePV orc w dflt fuel [] (locale, p) locale v with
+    | .err e => .err e
+    | .panic s => .panic s
+    | .ok v' => .ok (w.setValueAt locale p v', true)
 
-/-- `resolve_foreign_keys`: registered `(locale, path)` pairs in `BTreeSet` order -/
+/-- `resolve_foreign_keys`: registered `(locale, path)` pairs in `BTreeSet` order; for each, the value at the
+    registered path *and* the plural the key may have been merged into are resolved (both can exist: `x_one` → `x`
+    while `x_one_one`/`x_one_other` → `x_one`); neither existing is the panic site `resolve_foreign_keys_1` -/
 def resolveAll (orc : Oracle) (dflt : Str) (fuel : Nat) : List (Str × KeyPath) → World → Res World
   | [], w => .ok w
   | (locale, p) :: rest, w =>
-    match lookupRegistered w locale p with
+    match resolveAt orc dflt fuel locale p w with
     | .err e => .err e
     | .panic s => .panic s
-    | .ok none => .panic "resolve_foreign_keys_1"
-    | .ok (some (p', v)) =>
-      match resolvePV orc w dflt fuel [] (locale, p') locale v with
+    | .ok (w1, found1) =>
+      let second : Res (World × Bool) := match mergedPath p with
+        | none => .ok (w1, false)
+        | some p' => resolveAt orc dflt fuel locale p' w1
+      match second with
       | .err e => .err e
       | .panic s => .panic s
-      | .ok v' => resolveAll orc dflt fuel rest (w.setValueAt locale p' v')
+      | .ok (w2, found2) =>
+        if found1 || found2 then resolveAll orc dflt fuel rest w2 else .panic "resolve_foreign_keys_1"
 
 end I18nVerif.Foreign
